@@ -74,7 +74,7 @@ def one(path, run_tests=True, props=None):
 
 def main():
     args = [a for a in sys.argv[1:] if not a.startswith("--")]
-    root = args[0]
+    root = os.path.abspath(args[0])
     only = set(args[1:])
     run_tests = "--no-tests" not in sys.argv
     allprops = "--all-props" in sys.argv
@@ -116,6 +116,23 @@ def main():
             for l in c["lines"][:2]:
                 print(f"      [{p} exit={c['exit']}] {l[:220]}")
     json.dump(res, open("/tmp/seed_validate_last.json", "w"), indent=1)
+    if "--record" in sys.argv:
+        # write what was confirmed here into each meta.json (kept with the seed under /verif/seeded)
+        for r in res:
+            mp = os.path.join(r["seed"], "meta.json")
+            m = json.load(open(mp))
+            prop = r["property"]
+            ck = (r.get("checks") or {}).get(prop, {})
+            m["confirmed"] = {
+                "how": "tools/seed_validate.py on a scratch copy of /repo under /tmp (removed afterwards): demo on the unchanged copy, "
+                       "patch applied, demo again, pinned test suite on the patched copy, then check.py <property> --repo <copy>",
+                "demo_unchanged_exit": r.get("demo_clean"), "patch_applies": r.get("applies"), "demo_patched_exit": r.get("demo_patched"),
+                "demo_patched_last_line": r.get("demo_patched_tail"), "tests_on_patched": r.get("tests", "not run in this pass"),
+                "check_exit": ck.get("exit"), "check_lines": ck.get("lines", [])[:3],
+                "caught": ck.get("exit") == 1,
+                "detection": "VIOLATION (exit 1)" if ck.get("exit") == 1 else ("no verdict (exit 2, ANALYSIS-ERROR: shape outside the recognised idioms)" if ck.get("exit") == 2 else "missed (exit 0)"),
+            }
+            json.dump(m, open(mp, "w"), indent=2)
 
 
 if __name__ == "__main__":
